@@ -264,7 +264,7 @@ impl Real {
 // expects success is accepted on a labelled call (and counted), never on a fresh one.
 
 #[derive(Clone)]
-struct RProf { gen: u64, recs: BTreeMap<(String, String), Value> }
+struct RProf { gen: u64, id: u64, recs: BTreeMap<(String, String), Value> }
 #[derive(Clone)]
 struct RefDb { profs: BTreeMap<String, RProf>, default: String }
 struct RSess { h: usize, name: String, gen: Option<u64>, octx: &'static str }
@@ -275,6 +275,9 @@ struct Reference {
     saved: Option<RefDb>,
     txn: Option<u64>,
     next_gen: u64,
+    /// generation -> the row id SQLite gave it (rowid = max + 1, reused after the largest is deleted): only used to LABEL a
+    /// stale opening (is the remembered id in use again?), never for a verdict
+    gen_id: BTreeMap<u64, u64>,
     handles: Vec<Option<RHandle>>,
     sessions: BTreeMap<u64, RSess>,
 }
@@ -414,7 +417,9 @@ impl Reference {
                 let v = exact(json!({"name": p}), "store");
                 if matches!(v, Verdict::Exact) {
                     self.next_gen += 1;
-                    self.db.profs.insert(p.clone(), RProf { gen: self.next_gen, recs: BTreeMap::new() });
+                    let id = self.db.profs.values().map(|x| x.id).max().unwrap_or(0) + 1;
+                    self.gen_id.insert(self.next_gen, id);
+                    self.db.profs.insert(p.clone(), RProf { gen: self.next_gen, id, recs: BTreeMap::new() });
                     self.handles[h].as_mut().unwrap().known.insert(p, self.next_gen);
                 }
                 v
@@ -436,7 +441,14 @@ impl Reference {
             "session" | "scan" => {
                 if name == "session" && self.sessions.values().filter(|s| s.h == h).count() >= MAX_SESS { return exact(refused("TooMany"), "store"); }
                 let p = oname(op, "profile").unwrap_or_else(|| self.handles[h].as_ref().unwrap().active.clone());
-                let ctx = self.hctx(h, &p);
+                let mut ctx = self.hctx(h, &p);
+                if name == "session" && ctx == "stale:gone" {
+                    // D42 needs the remembered row id to be IN USE again (`ping` looks the id up); while the id is free every
+                    // opening of the removed profile — plain or transaction — must be refused: a label of its own, so that the
+                    // known signatures of D42 do not absorb such an opening (seed C07g)
+                    let id = self.handles[h].as_ref().and_then(|x| x.known.get(&p)).and_then(|g| self.gen_id.get(g)).copied();
+                    if let Some(id) = id { if !self.db.profs.values().any(|x| x.id == id) { ctx = "stale:gone:id-free"; } }
+                }
                 let cur = self.db.profs.get(&p).map(|x| x.gen);
                 let exp = match (&cur, name.as_str()) {
                     (None, _) => json!({"err": "NotFound"}),
@@ -485,8 +497,10 @@ pub fn exec(case: &Value, tag: &str) -> Value {
     let mut known = BTreeMap::new();
     known.insert("p0".to_string(), 0u64);
     let mut profs = BTreeMap::new();
-    profs.insert("p0".to_string(), RProf { gen: 0, recs: BTreeMap::new() });
-    let mut reference = Reference { db: RefDb { profs, default: "p0".into() }, saved: None, txn: None, next_gen: 0,
+    profs.insert("p0".to_string(), RProf { gen: 0, id: 1, recs: BTreeMap::new() });
+    let mut gen_id = BTreeMap::new();
+    gen_id.insert(0u64, 1u64);
+    let mut reference = Reference { db: RefDb { profs, default: "p0".into() }, saved: None, txn: None, next_gen: 0, gen_id,
         handles: vec![Some(RHandle { active: "p0".into(), known }), None, None], sessions: BTreeMap::new() };
 
     let mut steps = vec![];
